@@ -53,7 +53,10 @@ def pred_metrics(case, ctx):
         if a > min(p, r) + 1e-12:
             raise Violation("%saccuracy %r exceeds min(precision %r, recall %r)" % (pre, a, p, r))
     # resampling model
-    same = (len(rt) == len(et)) and rt == et
+    # documented rule: the estimate is resampled unless the time bases have the same size and are np.allclose
+    same = (len(rt) == len(et)) and all(abs(e_ - r_) <= 1e-8 + 1e-5 * abs(r_) for e_, r_ in zip(et, rt))
+    if same and rt != et:
+        ctx.event("time_bases_equal_up_to_rounding")
     tie = outside = False
     if same:
         choices = [[ef]]
@@ -140,6 +143,15 @@ def pair_with_grid(draw):
         c["ref_time"] = [round(t * 8) * g1 for t in c["ref_time"]]
         c["est_time"] = [round(t * 8) * (g1 if same else g2) for t in c["est_time"]]
         c["grid"] = "real"
+    elif c["ref_time"] == c["est_time"] and c["ref_time"] and draw(st.integers(0, 3)) == 0:
+        # the same grid up to floating-point rounding (k*hop vs a running sum, or read back from a text file): the first stamp one ulp
+        # late, the last one ulp early.  np.allclose calls these equal, so no resampling may take place.
+        et = list(c["est_time"])
+        et[0] = float(np.nextafter(et[0], np.inf))
+        if len(et) > 1:
+            et[-1] = float(np.nextafter(et[-1], -np.inf))
+        c["est_time"] = et
+        c["grid"] = "ulp"
     return c
 
 
